@@ -1,6 +1,8 @@
 """C14 - user callbacks see exactly the parsed items, and their verdict binds (DESIGN 4/C14)."""
 from props.common import run_with
 from props.parsecommon import parse_step_obs
+from props.apicommon import api_obs
+from runner import Ob
 
 NEEDS_LEXER = False
 FUNCS = ["cfg_parse_internal states 2,3,4,5,8,9", "cfg_setopt (parsecb dispatch)", "call_function", "cfg_setnint/cfg_setnfloat/cfg_setnstr (validcb2)", "cfg_set_validate_func", "cfg_set_validate_func2", "cfg_getopt_array"]
@@ -9,13 +11,18 @@ FUNCS = ["cfg_parse_internal states 2,3,4,5,8,9", "cfg_setopt (parsecb dispatch)
 def build_obs(tier, tables=None):
     obs = [o for o in parse_step_obs(["CHK_C14", "CHK_C01"], "c14", states=[2, 3, 4, 5, 8, 9], callbacks=True, tier=tier)
            if "validcb" in o.key or "parsecb" in o.key or "func" in o.key]
+    # pre-set validation callback of the by-name setters: veto and rewrite
+    obs += api_obs("c14", ["CHK_C14", "CHK_C10"], ops=("SETNINT_VETO",), tier=tier)
+    # registration by schema path
+    obs.append(Ob("c14-register-path", "reg_step.c", [], unwind=3, unwindset=["cfg_getopt_array.0:3", "cfg_getopt_array.1:4", "strcpy.0:6", "strlen.0:6", "strcmp.0:5", "strcspn.0:5", "strcspn.1:3", "strspn.0:5", "strspn.1:3", "v_strndup8.0:9", "alloc_values.0:3", "main.0:5"], checks="none", must_reach=("end of harness", "hit", "miss")))
+    obs.append(Ob("c14-register-plain", "reg_step.c", ["-DPLAIN"], unwind=3, unwindset=["cfg_getopt_array.0:3", "cfg_getopt_array.1:4", "strcpy.0:6", "strlen.0:6", "strcmp.0:5", "strcspn.0:5", "strcspn.1:3", "strspn.0:5", "strspn.1:3", "v_strndup8.0:9", "alloc_values.0:3", "main.0:5"], checks="none", must_reach=("end of harness", "hit", "miss")))
     return obs
 
 
 def run(tier, seed):
     return run_with(
         "C14", tier, seed, build_obs, functions=FUNCS,
-        bounds="parser steps in states 2,3,4,5,8,9 on options carrying recording callbacks (value-parsing, validation, function) whose verdicts are symbolic ints; 0-2 collected arguments; symbolic token kind/text",
+        bounds="cfg_setnint() with a symbolic veto/rewrite verdict; cfg_set_validate_func(2)() by plain name and by section|option path with a symbolic name byte, with instances already existing; parser steps in states 2,3,4,5,8,9 on options carrying recording callbacks (value-parsing, validation, function) whose verdicts are symbolic ints; 0-2 collected arguments; symbolic token kind/text",
         assumptions=["which invocation fails in a long text follows by induction over steps", "callbacks are recording stubs with symbolic return values"])
 
 
